@@ -10,6 +10,7 @@ filesystem is compared with the model, then a no-op mutate must leave the bytes
 unchanged.
 """
 import copy
+import os
 import itertools
 
 from .. import core
@@ -72,7 +73,19 @@ def check_detection(world, ext, data, list_name, explicit=None):
 STALE = b"#TITLE:stale file from an earlier run;\n#SUBTITLE:s;\n"
 
 
-def run_mutate(world, ext, data, output, backup, list_name, script, explicit_single=False, stale=False):
+def run_mutate(world, ext, data, output, backup, list_name, script, explicit_single=False, stale=False, relative=False):
+    """relative (native filesystem only): the names are given relative to the current directory."""
+    if not relative or world.which != "nat":
+        return _run_mutate(world, ext, data, output, backup, list_name, script, explicit_single, stale, lambda n: world.path(n))
+    cwd = os.getcwd()
+    try:
+        os.chdir(world.base)
+        return _run_mutate(world, ext, data, output, backup, list_name, script, explicit_single, stale, lambda n: ("./" + n) if n.startswith("bak") else n)
+    finally:
+        os.chdir(cwd)
+
+
+def _run_mutate(world, ext, data, output, backup, list_name, script, explicit_single, stale, path_of):
     """
     One mutate run + the follow-up no-op run. Returns failures.
     stale: files already exist under the output and backup names (left by an earlier run).
@@ -87,9 +100,9 @@ def run_mutate(world, ext, data, output, backup, list_name, script, explicit_sin
         files["out" + ext] = STALE
         files["bak" + ext] = STALE + b"#GENRE:b;\n"
     world.reset(files)
-    inp = world.path("in" + ext)
-    out = world.path("out" + ext) if output else None
-    bak = {"none": None, "other": world.path("bak" + ext), "input": inp, "output": out}[backup]
+    inp = path_of("in" + ext)
+    out = path_of("out" + ext) if output else None
+    bak = {"none": None, "other": path_of("bak" + ext), "input": inp, "output": out}[backup]
     tried = LISTS[list_name] or MU.ENCODINGS
     enc = MU.expected_encoding(data, tried)
     if explicit_single and enc:
@@ -166,7 +179,7 @@ def run_mutate(world, ext, data, output, backup, list_name, script, explicit_sin
     # a no-op mutate on the file just written, read again in the same encoding, leaves the bytes unchanged
     written = after.get(outname)
     if written is not None and MU.expected_encoding(written, tried) == enc and not fails:
-        wpath = world.path(outname)
+        wpath = path_of(outname)
         try:
             with simfile.mutate(wpath, filesystem=world.fs, **kw):
                 pass
@@ -217,7 +230,7 @@ def check_case(case):
         if case["kind"] == "detect":
             return check_detection(w, case["ext"], data, case["list"], case.get("explicit"))
         if case["kind"] == "mutate":
-            return run_mutate(w, case["ext"], data, case["output"], case["backup"], case["list"], case["script"], case.get("explicit_single", False), case.get("stale", False))
+            return run_mutate(w, case["ext"], data, case["output"], case["backup"], case["list"], case["script"], case.get("explicit_single", False), case.get("stale", False), case.get("relative", False))
     finally:
         close_worlds()
     raise core.MachineryError("unknown case")
@@ -312,12 +325,15 @@ def explore_shard(acc, shard):
                                 continue
                             for ln, single in (("default", False), ("reversed", False), ("default", True)):
                                 can_be_stale = output or backup == "other"
-                                for script, stale in ((sc, st) for sc in scripts for st in ((False, True) if can_be_stale and len(sc) <= 1 else (False,))):
+                                rel_opts = (False, True) if fsname == "nat" and ln == "default" and not single else (False,)
+                                for script, stale, relative in ((sc, st, rl) for sc in scripts for st in ((False, True) if can_be_stale and len(sc) <= 1 else (False,)) for rl in (rel_opts if len(sc) <= 1 and not st else (False,))):
                                     if len(script) >= 2 and not full and (ln != "default" or single or backup in ("input", "output")):
                                         continue
-                                    case = {"kind": "mutate", "fs": fsname, "ext": ext, "data": data.hex(), "output": output, "backup": backup, "list": ln, "script": list(script), "explicit_single": single, "stale": stale}
+                                    case = {"kind": "mutate", "fs": fsname, "ext": ext, "data": data.hex(), "output": output, "backup": backup, "list": ln, "script": list(script), "explicit_single": single, "stale": stale, "relative": relative}
                                     core.guard_cheap(acc, case)
-                                    fails = run_mutate(w, ext, data, output, backup, ln, script, single, stale)
+                                    fails = run_mutate(w, ext, data, output, backup, ln, script, single, stale, relative)
+                                    if relative:
+                                        acc.outcome("file names relative to the current directory")
                                     if stale:
                                         acc.outcome("output / backup name already taken by an older file")
                                     acc.count("states")
@@ -369,12 +385,13 @@ def explore(run):
         + f" embedded as '#TITLE:<payload>;' in .sm and .ssc x tried lists {list(LISTS)} + explicit encoding= ; "
         f"B: {len(boundary_payloads())} multi-byte payloads placed at every offset N-d (d = 0..length) for N in {list(BOUNDARIES_THOROUGH if run.thorough() else BOUNDARIES_QUICK)}, with and without text behind, x 3 lists x both filesystems; "
         f"M: one representative payload per decodability signature ({nsig} signatures found by brute force) x 2 layouts x {{.sm,.ssc}} x output name x backup {{none, other, =input, =output}} x "
-        f"encoding list {{default, reversed, explicit}} x filesystem x edit scripts of length <= {maxlen} over {MU.EDITS} x (for scripts of <= 1 edit) output/backup names free or already taken by older files; after each run the whole filesystem is compared with the model and a no-op mutate is run on the written file. "
+        f"encoding list {{default, reversed, explicit}} x filesystem x edit scripts of length <= {maxlen} over {MU.EDITS} x (for scripts of <= 1 edit) output/backup names free or already taken by older files x (native) absolute names or names relative to the current directory; after each run the whole filesystem is compared with the model and a no-op mutate is run on the written file. "
         "Non-trivial = payload not decodable everywhere / any edit, output or backup."
     )
     run.assumptions = ["Python's codecs define what 'decodes' means", "values contain no bare carriage return", "MemoryFS text streams do no newline translation, native ones do (universal newlines)"]
     core.require(acc.outcomes["no tried encoding decodes (UnicodeDecodeError)"] > 0, "error clause not exercised")
     core.require(acc.outcomes["clashing backup name"] > 0, "no clashing backup name")
+    core.require(acc.outcomes["file names relative to the current directory"] > 0, "no relative names")
     core.require(acc.outcomes["output / backup name already taken by an older file"] > 0, "no pre-existing output / backup file")
     core.require(acc.outcomes["multi-byte character straddling a buffer-size offset"] > 0, "no straddling character")
     core.require(acc.outcomes["edit adds a character the detected encoding lacks"] > 0, "unencodable edit never tried")
